@@ -116,8 +116,11 @@ type Prop struct {
 	Setup     func(repo, tier string) error
 	// Budget in seconds per tier (wall, whole check).
 	QuickSec, ThoroughSec int
-	// Race: build the worker with -race.
-	Race bool
+	// Race: build the worker with -race as well; RacePhases lists the phases that run in it.
+	Race       bool
+	RacePhases []int
+	// PhaseBudget: share (percent) of the tier's wall budget per phase; empty = all to the last phase.
+	PhaseBudget []int
 	// Procs: GOMAXPROCS for workers (0 = default 1).
 	Procs int
 	// Workers: number of worker processes (0 = 16).
